@@ -13,6 +13,7 @@ library code produces in cg-dump), `write (stdout) k` and `(stdout s)` append to
 The oracles of compile_bash come from cg-dump and the script the binary wrote, as in e2e.py."""
 import os
 import re
+import time
 import shutil
 import subprocess
 import tempfile
@@ -262,6 +263,7 @@ def unversion(data):
 
 def tie(ctx, res, extra=(), label='main_run_tie'):
     r = ctx['rng']
+    t0 = time.time()
     quick = ctx.get('tier') != 'thorough'
     with build.Lock():
         exe = build.harness()
@@ -270,7 +272,7 @@ def tie(ctx, res, extra=(), label='main_run_tie'):
     cls = command_lines(r, quick)
     cases = []
     for name, text in INPUTS:
-        for cl in (cls if not quick else [c for c in cls if r.random() < 0.5 or c['usage'] != 'file' or c.get('pin')]):
+        for cl in (cls if not quick else [c for c in cls if r.random() < 0.4 or c['usage'] != 'file' or c.get('pin')]):
             shell = cl['shells'][0] if len(cl['shells']) == 1 else 'bash'
             t = text.replace(b'@SHELL>', ('@%s>' % shell).encode())
             cases.append(dict(name=name, cl=cl, text=t, shell=shell))
@@ -397,5 +399,6 @@ def tie(ctx, res, extra=(), label='main_run_tie'):
             stats['agree'] += 1
             res.traces_validated += 1
             stats['exit%d' % run['rc']] = stats.get('exit%d' % run['rc'], 0) + 1
+    stats['wall_s'] = round(time.time() - t0, 1)
     res.extra[label] = dict(stats, per_input={'%s/%s' % k: v for k, v in sorted(kinds.items())})
     return stats
